@@ -36,6 +36,29 @@ open Ark Ark.Proto Ark.Par
 
 def vs (impl spec : String) : String := if impl == spec then "ok" else "bad:want=" ++ spec
 
+/-- one pass over the bytes of a comma separated hex list (the lines of this property carry up to
+    2^16 field elements; `Proto.parseList?` is several times slower on them).  The current number is
+    kept as `hi·16^k + lo` with `lo` of at most 15 digits, so that multi-limb values cost one
+    big-number operation per 15 digits. -/
+def parseListGo (b : ByteArray) : Nat → Nat → Nat → Nat → Nat → Bool → Array Nat → Option (Array Nat)
+  | 0, _, _, _, _, _, _ => none
+  | fuel + 1, i, hi, lo, k, seen, out =>
+    let fin := if hi = 0 then lo else hi <<< (4 * k) ||| lo
+    if i ≥ b.size then (if seen then some (out.push fin) else none)
+    else
+      let c := (b.get! i).toNat
+      if c = 44 then (if seen then parseListGo b fuel (i + 1) 0 0 0 false (out.push fin) else none)
+      else
+        let d := if 48 ≤ c ∧ c ≤ 57 then c - 48 else if 97 ≤ c ∧ c ≤ 102 then c - 87 else 16
+        if d = 16 then none
+        else if k = 15 then parseListGo b fuel (i + 1) (hi <<< 60 ||| lo) d 1 true out
+        else parseListGo b fuel (i + 1) hi (lo * 16 + d) (k + 1) true out
+
+def parseList? (s : String) : Option (List Nat) :=
+  if s == "_" then some [] else
+  let b := s.toUTF8
+  (parseListGo b (b.size + 2) 0 0 0 0 false (Array.mkEmpty 16)).map Array.toList
+
 def toFp (p : Nat) (l : List Nat) : List (Fp p) := l.map (Fp.ofNat p)
 def showL {p : Nat} (l : List (Fp p)) : String := hexList (l.map (·.val))
 def showO {p : Nat} : Outcome (List (Fp p)) → String
@@ -71,30 +94,30 @@ def lcgIdx (n : Nat) : Nat → Nat → List Nat
   | k + 1, s => let s' := lcgNext s; ((s' / 2 ^ 33) % n) :: lcgIdx n k s'
 
 /-- indices at which an output of length `n` is compared with the naive evaluation:
-    all of them up to 1024 entries, beyond that a fixed fringe plus 20 pseudo-random positions
+    all of them up to `full` entries, beyond that a fixed fringe plus 24 pseudo-random positions
     (seeded by `T` and the input, so the different pool sizes look at different places) -/
-def sampleIdx (n seed : Nat) : List Nat :=
-  if n ≤ 1024 then List.range n
-  else [0, 1, 2, 3, n / 4, n / 2 - 1, n / 2, n / 2 + 1, n - 2, n - 1] ++ lcgIdx n 20 seed
+def sampleIdx (full n seed : Nat) : List Nat :=
+  if n ≤ full then List.range n
+  else [0, 1, 2, 3, n / 4, n / 2 - 1, n / 2, n / 2 + 1, n - 2, n - 1] ++ lcgIdx n 24 seed
 
 def resizeNat (l : List Nat) (n : Nat) : List Nat := l.take n ++ List.replicate (n - l.length) 0
 
 /-- verdict of a forward transform: `out.length = size` and `out[i] = P(off·genⁱ)` on the sampled
     indices, `P` = the input (`poly`) -/
-def judgeFft (p size gen off : Nat) (poly : List Nat) (out : List Nat) (seed : Nat) : String :=
+def judgeFft (full p size gen off : Nat) (poly : List Nat) (out : List Nat) (seed : Nat) : String :=
   if out.length ≠ size then "bad:length" else
   let o := out.toArray
-  match (sampleIdx size seed).find? (fun i =>
+  match (sampleIdx full size seed).find? (fun i =>
       o[i]? != some (hornerNat p poly (off * Spec.powMod gen i p % p))) with
   | some i => "bad:index=" ++ hex i
   | none => "ok"
 
 /-- verdict of an inverse transform: `out.length = size` and the polynomial `out` takes the value
     `evals[i]` at `off·genⁱ` on the sampled indices -/
-def judgeIfft (p size gen off : Nat) (evals : List Nat) (out : List Nat) (seed : Nat) : String :=
+def judgeIfft (full p size gen off : Nat) (evals : List Nat) (out : List Nat) (seed : Nat) : String :=
   if out.length ≠ size then "bad:length" else
   let e := (resizeNat evals size).toArray
-  match (sampleIdx size seed).find? (fun i =>
+  match (sampleIdx full size seed).find? (fun i =>
       e[i]? != some (hornerNat p out (off * Spec.powMod gen i p % p))) with
   | some i => "bad:index=" ++ hex i
   | none => "ok"
@@ -235,9 +258,9 @@ def run (op : String) (args : List String) (impl : String) : Option (String × S
     if impl == "panic" then
       some (showO (if dir == "f" then mixedFftPar t sfftNaive d (toFp p v) else mixedIfftPar t sfftNaive d (toFp p v)), "bad:panic")
     else if dir == "f" then
-      some (showO (mixedFftPar t sfftNaive d (toFp p v)), judgeFft p size gen off (v.take size) o 0)
+      some (showO (mixedFftPar t sfftNaive d (toFp p v)), judgeFft 4096 p size gen off (v.take size) o 0)
     else if dir == "i" then
-      some (showO (mixedIfftPar t sfftNaive d (toFp p v)), judgeIfft p size gen off v o 0)
+      some (showO (mixedIfftPar t sfftNaive d (toFp p v)), judgeIfft 4096 p size gen off v o 0)
     else none
   | "r2fft", [t, p, _kind, size, gen, off, dir, v] => do
     let t ← parseHex? t; let p ← parseHex? p; let size ← parseHex? size
@@ -245,15 +268,17 @@ def run (op : String) (args : List String) (impl : String) : Option (String × S
     if impl == "panic" then some ("any", "bad:panic") else
     let o ← parseList? impl
     let seed := t * 2654435761 + size + v.headD 0
-    if dir == "f" then some ("any", judgeFft p size gen off (v.take size) o seed)
-    else if dir == "i" then some ("any", judgeIfft p size gen off v o seed)
+    -- every index up to 256 points (64 over multi-limb moduli), sampled beyond
+    let full := if p < 2 ^ 32 then 256 else 64
+    if dir == "f" then some ("any", judgeFft full p size gen off (v.take size) o seed)
+    else if dir == "i" then some ("any", judgeIfft full p size gen off v o seed)
     else none
   | "evalod", [t, p, size, gen, off, v] => do
     let t ← parseHex? t; let p ← parseHex? p; let size ← parseHex? size
     let gen ← parseHex? gen; let off ← parseHex? off; let v ← parseList? v
     if impl == "panic" then some ("any", "bad:panic") else
     let o ← parseList? impl
-    let idx := if size ≤ 256 then List.range size else sampleIdx (max size 1025) (t * 2654435761 + v.headD 0) |>.map (· % size)
+    let idx := sampleIdx 256 size (t * 2654435761 + v.headD 0)
     if o.length ≠ size then some ("any", "bad:length") else
     let oa := o.toArray
     match idx.find? (fun i => oa[i]? != some (hornerNat p v (off * Spec.powMod gen i p % p))) with
